@@ -146,6 +146,14 @@ def attemptsBounded (cfg : Config) (outs : List Outcome) (r : Run) : Bool :=
 def timeOK (cfg : Config) (atts : List Attempt) (r : Run) : Bool :=
   waitsBounded cfg (atts.map (·.out)) r && waitsEndBy cfg atts r && unlimitedOK cfg r
 
+/-- "gives up with an error once … the exporter [is] shut down, never blocks beyond that", on the `shut` scenario:
+at the final observation Shutdown has returned and the pending export has returned an error -/
+def shutdownOK (seen : Option Bool × Option Bool) : Bool :=
+  seen.1.isSome && seen.2 == some true
+
+/-- candidate finding (not yet registered): exporters whose Shutdown does not signal the pending export -/
+def FShut_applies (w : StopWiring) : Bool := w != .cancelsExport
+
 /-- `Enabled = false`: exactly one attempt, its result returned unchanged -/
 def disabledSingle (outs : List Outcome) (r : Run) : Bool :=
   r.attempts == 1 && r.waits.isEmpty && r.result == .returned (outs.headD .fatal)
